@@ -13,7 +13,14 @@
 #include <pthread.h>
 #include <stdint.h>
 
-enum { SS_RANDOM = 0, SS_PCT = 1, SS_BG_STARVE = 2, SS_BG_GREEDY = 3, SS_FG_STICKY = 4, SS_NSTRATEGIES };
+enum { SS_RANDOM = 0, SS_PCT = 1, SS_BG_STARVE = 2, SS_BG_GREEDY = 3, SS_FG_STICKY = 4, SS_NSTRATEGIES,
+       /* systematic enumeration (not drawn at random): the default schedule is non-preemptive (the running thread
+          continues while it can, otherwise the runnable thread with the lowest id takes over); a schedule is the
+          default with up to two DEVIATIONS.  Every decision point with k runnable threads offers k-1 alternatives;
+          alternatives are numbered 1,2,3.. in the order they are met (per stage: before the first deviation, after
+          it); enum_target[s] names the alternative taken as deviation s+1 (0 = none).  Deterministic workloads
+          give the same numbering in every run, so 1..sched_enum_alts(0) enumerates all one-deviation schedules. */
+       SS_ENUM = 16 };
 
 typedef struct sched_cfg_s {
   uint64_t seed;
@@ -23,6 +30,8 @@ typedef struct sched_cfg_s {
   int starve_steps;       /* SS_BG_STARVE: internal threads are not chosen for this many steps at a time */
   int spurious_permille;  /* probability that a cond wait wakes without a signal */
   uint64_t max_steps;     /* "stuck" bound */
+  int enum_n;             /* SS_ENUM: number of deviations (0..2) */
+  uint64_t enum_target[2];
 } sched_cfg_t;
 
 /* called by the harness main thread; it becomes managed thread 0 */
@@ -35,6 +44,8 @@ int sched_active(void);
 void sched_point(int kind);
 uint64_t sched_step(void);            /* logical clock */
 uint64_t sched_switches(void);
+uint64_t sched_enum_alts(int stage);  /* SS_ENUM: alternatives met in stage 0 (before the first deviation) / 1 / 2 */
+int sched_enum_taken(void);           /* SS_ENUM: deviations actually taken */
 uint64_t sched_signature(void);       /* hash of the sequence of (thread, point kind) switches */
 int sched_self(void);                 /* managed thread id of the caller (-1 unmanaged) */
 void sched_label(const char *what);   /* current API call of this thread, for diagnostics */
